@@ -6,7 +6,7 @@
    Every helper of the handlers and both EndBlock phases satisfy them unconditionally. *)
 From Coq Require Import List ZArith Bool Lia Permutation.
 From SVC Require Import Base.AMap Base.Res Base.Dec Model.Types Model.Pricing
-  Model.Handlers Model.EndBlock Model.Step Proofs.Inv Proofs.Lemmas Proofs.InvWf.
+  Model.Handlers Model.EndBlock Model.Step Proofs.Inv Proofs.Lemmas Proofs.InvWf Proofs.CtxOps.
 Import ListNotations.
 Open Scope Z_scope.
 
@@ -484,9 +484,13 @@ Proof.
   - (* start *) unfold h_start, authorized in H. inv_ok H.
     match type of H with (if ?b then _ else _) = _ => destruct b end; inv_ok H; subst s'; frame_triv.
   - (* kill *) unfold h_kill, authorized in H. inv_ok H. subst s'. frame_triv.
-  - (* update ctx *) unfold h_update_ctx, authorized in H. inv_ok H. subst s'. frame_triv.
+  - (* update ctx *) unfold h_update_ctx, update_ctx_tail, authorized in H. inv_ok H. subst s'. frame_triv.
   - (* transfer *) unfold h_transfer in H. inv_ok H. eapply ff_transfer; eauto.
   - (* end block *) injection H as <-. apply ff_end_block.
+  - (* module update *) mod_shape H; frame_triv.
+  - (* module pause *) mod_shape H; frame_triv.
+  - (* module start *) mod_shape H; frame_triv.
+  - (* module kill *) mod_shape H; frame_triv.
 Qed.
 
 Lemma sframe_respond cfg s r who code out out_valid ok s' :
